@@ -1061,6 +1061,8 @@ class Server:
             await self.user_manager.notify_logout(connection.user)
         del connection.user
         del connection.logged
+        # real path of a pending RNFR belongs to the previous user
+        del connection.rename_from
         state, user, info = await self.user_manager.get_user(rest)
         if state == AbstractUserManager.GetUserResponse.OK:
             code = "230"
